@@ -45,7 +45,7 @@ import (
 
 type vw2Counters struct {
 	images, imagesAfterPage, imagesAfterNonTruncatingPage, imagesAfterLaterPage, imagesAtEventEnd atomic.Int64
-	imagesBehindNothing                                                                       atomic.Int64
+	imagesBehindNothing, uncommittedTailLost                                                  atomic.Int64
 }
 
 // vwCrashPool hands out, per instance, three MessageDB stores on three private crash volumes.
@@ -245,16 +245,20 @@ func (x *vw2) judge(im vw2Image) error {
 		return mc.Violatef("C02:committed-watermark-decreased-by-power-loss-after-"+kind,
 			"node %d: %s and the store reported LEO %d / committed %d (visible to Load, recovery probes and donor Fetch); after a power loss at that instant the reopened database reports LEO %d / committed %d: the committed watermark moved backwards and a mutation reported durable vanished",
 			node, what, live.leo, live.committed, rec.leo, rec.committed)
-	case rec.leo < live.leo:
-		return mc.Violatef("C02:durable-log-end-decreased-by-power-loss-after-"+kind,
-			"node %d: %s and the store reported LEO %d / committed %d; after a power loss at that instant the reopened database reports LEO %d / committed %d", node, what, live.leo, live.committed, rec.leo, rec.committed)
 	}
-	for s := uint64(1); s <= live.leo; s++ {
+	// C02 speaks about the committed prefix: every entry at or below the reported committed
+	// watermark must survive unchanged. (An un-committed tail that was reported durable and
+	// is lost is a matter of C01 / C09; counted as an observation here.)
+	for s := uint64(1); s <= live.committed; s++ {
 		a, _ := live.at(s)
 		b, ok := rec.at(s)
 		if !ok || a != b {
-			return mc.Violatef("C02:durable-entry-changed-by-power-loss-after-"+kind, "node %d: %s; after a power loss at that instant the entry at offset %d differs from the one the live store reported", node, what, s)
+			return mc.Violatef("C02:committed-entry-changed-by-power-loss-after-"+kind, "node %d: %s and the store reported LEO %d / committed %d; after a power loss at that instant the entry at the committed offset %d is missing or differs from the one the live store reported", node, what, live.leo, live.committed, s)
 		}
+	}
+	if rec.leo < live.leo {
+		x.xs.uncommittedTailLost.Add(1)
+		return nil
 	}
 	x.xs.imagesBehindNothing.Add(1)
 	return nil
